@@ -853,7 +853,8 @@ func (e *Exec) sprintf(format Value, args *SliceV, what string) Value {
 		}
 	}
 	e.stub("uf:" + what)
-	return e.ufCall("fmt", append([]Value{format}, vals...), types.Typ[types.String])
+	r := e.ufCall("fmt", append([]Value{format}, vals...), types.Typ[types.String]).(*StrV)
+	return &StrV{T: r.T, Args: vals}
 }
 
 // toNative converts a fully concrete engine value to a Go value for fmt.
